@@ -556,8 +556,12 @@ struct H : Handler {
             std::size_t s = u64(c.next());
             std::string bytes = unhex(c.next());
             std::size_t limit = c.more() ? u64(c.next()) : bytes.size();
+            int mask = c.more() ? static_cast<int>(u64(c.next())) : 0;
             LimitBuf lb(bytes, limit);
             std::istream is(&lb);
+            if (mask == 1) is.exceptions(std::ios::failbit | std::ios::badbit);
+            if (mask == 2) is.exceptions(std::ios::eofbit);
+            if (mask == 3) is.exceptions(std::ios::badbit);
             try {
                 slots[s].emplace(is);
             } catch (const std::bad_alloc &) {
@@ -572,12 +576,17 @@ struct H : Handler {
             return "LOADED";
         }
         if (name == "truncs") {
-            // truncs <hex bytes>: load every proper prefix; one letter per length (X exception, L loaded)
+            // truncs <hex bytes> [mask]: load every proper prefix; one letter per length (X exception, L loaded);
+            // mask: the caller's stream has an exception mask (1 failbit|badbit, 2 eofbit, 3 badbit), so the stream itself throws
             std::string bytes = unhex(c.next());
+            int mask = c.more() ? static_cast<int>(u64(c.next())) : 0;
             std::string out;
             for (std::size_t k = 0; k < bytes.size(); ++k) {
                 LimitBuf lb(bytes, k);
                 std::istream is(&lb);
+                if (mask == 1) is.exceptions(std::ios::failbit | std::ios::badbit);
+                if (mask == 2) is.exceptions(std::ios::eofbit);
+                if (mask == 3) is.exceptions(std::ios::badbit);
                 try {
                     field_t f(is);
                     out.push_back('L');
